@@ -87,6 +87,10 @@ pub struct Scenario {
     /// time as one of `runs`.
     #[serde(default)]
     pub pair: Option<Pair>,
+    /// stderr cannot be written (a full device, a pipe whose reader is gone):
+    /// a diagnostic about a failed refresh must not be what stops rink.
+    #[serde(default)]
+    pub stderr_unwritable: bool,
 }
 
 #[derive(Serialize, Deserialize, Clone, Debug, PartialEq)]
@@ -483,6 +487,7 @@ fn run_history(sc: &Scenario, chooser: Chooser, keep_log: bool) -> HistoryOut {
     m.keep_log = keep_log;
     m.short_read_pct = sc.short_read_pct;
     m.watch_path = Some(simkit::machine::norm(&PathBuf::from(CACHE_PATH)));
+    m.stderr_broken = sc.stderr_unwritable;
     if sc.cfg.no_cache_dir {
         m.cache_dir = None;
     }
@@ -1378,6 +1383,7 @@ impl Harness for C20 {
             doc_size,
             short_read_pct,
             pair,
+            stderr_unwritable: rng.chance(1, 12),
         }
     }
 
@@ -1395,7 +1401,12 @@ impl Harness for C20 {
         let mut digest = base.digest;
         let mut variants = 0u64;
         let mut history: Vec<String> = Vec::new();
-        history.push(format!("initial cache: {:?}; config: {:?}", sc.initial, sc.cfg));
+        history.push(format!(
+            "initial cache: {:?}; config: {:?}{}",
+            sc.initial,
+            sc.cfg,
+            if sc.stderr_unwritable { "; stderr cannot be written" } else { "" }
+        ));
         for (ri, o) in base.obs.iter().enumerate() {
             history.push(format!(
                 "run #{} gap={}s {:?} server={:?} faults={:?} crash={:?} -> {} ; cache {} -> {} ; {} steps, {} transfer(s), completed 200 bodies {:?}",
@@ -1552,7 +1563,10 @@ impl Harness for C20 {
             }
         }
         bump(&mut stats, "crash_variants_executed", variants);
-        let any_fault = sc.pair.is_some() || sc.runs.iter().any(|r| {
+        if sc.stderr_unwritable {
+            bump(&mut stats, "histories_with_unwritable_stderr", 1);
+        }
+        let any_fault = sc.pair.is_some() || sc.stderr_unwritable || sc.runs.iter().any(|r| {
             !r.faults.is_empty()
                 || r.crash.is_some()
                 || r.server.iter().any(|s| {
@@ -1715,6 +1729,11 @@ impl Harness for C20 {
             c.short_read_pct = 0;
             out.push(c);
         }
+        if sc.stderr_unwritable {
+            let mut c = sc.clone();
+            c.stderr_unwritable = false;
+            out.push(c);
+        }
         if sc.initial != CacheState::Absent {
             let mut c = sc.clone();
             c.initial = CacheState::Absent;
@@ -1798,6 +1817,7 @@ impl Harness for C20 {
         vec![
             "Crash model is process kill (what C20 states): completed operations persist, rename is atomic; power loss / lost page cache is not modelled".into(),
             "The curl stand-in reproduces libcurl's documented outcomes (18 short body, 23 short callback count, 28 timeout incl. paused transfer, 56 reset, 7 refused, 6 DNS, error-page bodies delivered to the callback)".into(),
+            "One history in twelve runs with an unwritable stderr (ENOSPC on every write): eprintln! then panics as std's does, a writeln! to io::stderr() returns the error".into(),
             "std::fs::File stand-in: advisory locks (lock, lock_shared, try_lock, unlock) with flock(2) semantics: a lock belongs to the open file description, goes with its last handle or its process; a blocking lock lets the other process run".into(),
             "tempfile stand-in: O_EXCL create with unique names, persist = rename(2), drop = unlink; /tmp is a different file system (rename across gives EXDEV)".into(),
             "A close-delimited 200 body cut by an orderly close (or a connection closed inside the response headers) is reported as success by libcurl with the prefix (or nothing) delivered; it is generated, and the prefix must not reach the cache".into(),
@@ -1837,6 +1857,8 @@ impl Harness for C20 {
             "entry_fetch_currency",
             "leftover_temp_files_seen",
             "entry_startup_sandboxed",
+            "histories_with_unwritable_stderr",
+            "stderr_write_failed",
             "two_process_runs",
             "process_switch",
             "both_processes_transferred",
